@@ -22,6 +22,11 @@ impl<'a> FieldEntry<'a> {
     #[verifier::external_body]
     fn make_ident(&self, prefix: &str) -> Ident { unimplemented!() }
 }
+#[verus_verify]
+impl<'a> VariantEntry<'a> {
+    #[verifier::external_body]
+    fn make_pat(&self, prefix: &str) -> TokenStream { unimplemented!() }
+}
 
 //@ fn item_type.rs build_copy_for_struct
 //@   attr #[verus_verify]
@@ -33,6 +38,129 @@ impl<'a> FieldEntry<'a> {
 //@   before for variant in variants ## #[verus_spec(vi => invariant wcb.gps == gps_of(&item.generics), kind is Copy, use_bounds == entry_phase(start(&item.generics), e).go, vi.seq().len() == variants@.len(), forall|i: int| 0 <= i < variants@.len() ==> *vi.seq()[i] == variants@[i], 0 <= vi.index@ <= variants@.len(), same(&wcb, variants_phase(entry_phase(start(&item.generics), e), use_bounds, &gps_of(&item.generics), variants@, vi.index@, kind)))]
 //@   before for field in &variant.fields ## #[verus_spec(fi => invariant wcb.gps == gps_of(&item.generics), kind is Copy, fi.seq().len() == variant.fields@.len(), forall|i: int| 0 <= i < variant.fields@.len() ==> *fi.seq()[i] == variant.fields@[i], 0 <= fi.index@ <= variant.fields@.len(), same(&wcb, fields_phase(level_phase(St { go: use_bounds_outer(&item.generics, e), ..variants_phase(entry_phase(start(&item.generics), e), use_bounds_outer(&item.generics, e), &gps_of(&item.generics), variants@, vi.index@ as int, kind) }, &variant.hattrs, kind), use_bounds, &gps_of(&item.generics), variant.fields@, fi.index@, kind)), use_bounds == level_phase(St { go: use_bounds_outer(&item.generics, e), ..variants_phase(entry_phase(start(&item.generics), e), use_bounds_outer(&item.generics, e), &gps_of(&item.generics), variants@, vi.index@ as int, kind) }, &variant.hattrs, kind).go)]
 //@   before let wheres = wcb.build( ## proof! { assert(same(&wcb, expected_variants(&item.generics, e, variants@, kind))); }
+//@ end
+//@ fn item_type.rs build_clone_for_struct
+//@   attr #[verus_verify]
+//@   before for field in fields ## #[verus_spec(fi => invariant wcb.gps == gps_of(&item.generics), kind is Clone, use_bounds == entry_phase(start(&item.generics), e).go, fi.seq().len() == fields@.len(), forall|i: int| 0 <= i < fields@.len() ==> *fi.seq()[i] == fields@[i], 0 <= fi.index@ <= fields@.len(), same(&wcb, fields_phase(entry_phase(start(&item.generics), e), use_bounds, &gps_of(&item.generics), fields@, fi.index@, kind)))]
+//@   before let wheres = wcb.build( ## proof! { assert(same(&wcb, expected_fields(&item.generics, e, fields@, kind))); }
+//@ end
+//@ fn item_type.rs build_clone_for_enum
+//@   attr #[verus_verify]
+//@   before for variant in variants ## #[verus_spec(vi => invariant wcb.gps == gps_of(&item.generics), kind is Clone, use_bounds == entry_phase(start(&item.generics), e).go, vi.seq().len() == variants@.len(), forall|i: int| 0 <= i < variants@.len() ==> *vi.seq()[i] == variants@[i], 0 <= vi.index@ <= variants@.len(), same(&wcb, variants_phase(entry_phase(start(&item.generics), e), use_bounds, &gps_of(&item.generics), variants@, vi.index@, kind)))]
+//@   before for field in &variant.fields ## #[verus_spec(fi => invariant wcb.gps == gps_of(&item.generics), kind is Clone, fi.seq().len() == variant.fields@.len(), forall|i: int| 0 <= i < variant.fields@.len() ==> *fi.seq()[i] == variant.fields@[i], 0 <= fi.index@ <= variant.fields@.len(), same(&wcb, fields_phase(level_phase(St { go: use_bounds_outer(&item.generics, e), ..variants_phase(entry_phase(start(&item.generics), e), use_bounds_outer(&item.generics, e), &gps_of(&item.generics), variants@, vi.index@ as int, kind) }, &variant.hattrs, kind), use_bounds, &gps_of(&item.generics), variant.fields@, fi.index@, kind)), use_bounds == level_phase(St { go: use_bounds_outer(&item.generics, e), ..variants_phase(entry_phase(start(&item.generics), e), use_bounds_outer(&item.generics, e), &gps_of(&item.generics), variants@, vi.index@ as int, kind) }, &variant.hattrs, kind).go)]
+//@   before let wheres = wcb.build( ## proof! { assert(same(&wcb, expected_variants(&item.generics, e, variants@, kind))); }
+//@ end
+verus! {
+pub open spec fn transparent(f: &FieldEntry) -> bool { f.hattrs.debug.transparent.span.is_some() }
+pub open spec fn dbg_ignored(f: &FieldEntry) -> bool { f.hattrs.debug.ignore.span.is_some() }
+pub open spec fn n_transparent(fs: Seq<FieldEntry>, n: int) -> int decreases n {
+    if n <= 0 { 0 } else { n_transparent(fs, n - 1) + (if transparent(&fs[n - 1]) { 1int } else { 0int }) }
+}
+pub open spec fn last_tr(fs: Seq<FieldEntry>, n: int) -> int decreases n {
+    if n <= 0 { -1 } else if transparent(&fs[n - 1]) { n - 1 } else { last_tr(fs, n - 1) }
+}
+// C03/C10: debug-ignored fields contribute no bound; with a transparent field only that field does
+pub open spec fn dbg_fields_phase(s: St, go: bool, g: &GenericParamSet, fs: Seq<FieldEntry>, n: int) -> St decreases n {
+    if n <= 0 { s } else {
+        let p = dbg_fields_phase(s, go, g, fs, n - 1);
+        if dbg_ignored(&fs[n - 1]) { p } else { field_phase(p, go, g, &fs[n - 1], DeriveItemKind::Debug) }
+    }
+}
+pub open spec fn dbg_expected(s: St, go: bool, g: &GenericParamSet, fs: Seq<FieldEntry>) -> St {
+    if n_transparent(fs, fs.len() as int) == 1 { field_phase(s, go, g, &fs[last_tr(fs, fs.len() as int)], DeriveItemKind::Debug) }
+    else { dbg_fields_phase(s, go, g, fs, fs.len() as int) }
+}
+pub proof fn lemma_last_tr(fs: Seq<FieldEntry>, n: int)
+    requires 0 <= n <= fs.len(), n_transparent(fs, n) >= 1,
+    ensures 0 <= last_tr(fs, n) < n, transparent(&fs[last_tr(fs, n)]),
+    decreases n
+{
+    if n > 0 && !transparent(&fs[n - 1]) { lemma_last_tr(fs, n - 1); }
+}
+pub proof fn lemma_n_tr_mono(fs: Seq<FieldEntry>, a: int, b: int) requires 0 <= a <= b, ensures n_transparent(fs, a) <= n_transparent(fs, b) decreases b { if a < b { lemma_n_tr_mono(fs, a, b - 1); } }
+pub open spec fn tr_mono(fs: Seq<FieldEntry>) -> bool { forall|a: int, b: int| 0 <= a <= b ==> #[trigger] n_transparent(fs, a) <= #[trigger] n_transparent(fs, b) }
+pub proof fn lemma_mono_all(fs: Seq<FieldEntry>) ensures tr_mono(fs) {
+    assert forall|a: int, b: int| 0 <= a <= b implies #[trigger] n_transparent(fs, a) <= #[trigger] n_transparent(fs, b) by { lemma_n_tr_mono(fs, a, b); }
+}
+}
+#[verus_verify]
+impl HelperAttributes {
+//@ fn item_type.rs HelperAttributes::is_debug_ignore
+//@   spec r => ensures r == self.debug.ignore.span.is_some()
+//@ end
+}
+#[verus_verify]
+impl<'a> FieldEntry<'a> {
+    #[verifier::external_body]
+    #[verus_spec(r => ensures uses(&r) == Set::<int>::empty())]
+    fn member(&self) -> TokenStream { unimplemented!() }
+}
+//@ fn item_type.rs build_debug_expr
+//@   attr #[verus_verify]
+//@   spec r => requires forall|f: &FieldEntry| to_expr.requires((f,)),
+//@     | ensures r is Err <==> n_transparent(fields@, fields@.len() as int) >= 2,
+//@     | r is Ok ==> same(final(wcb), dbg_expected(st(old(wcb), true), use_bounds, &old(wcb).gps, fields@)) && final(wcb).gps == old(wcb).gps
+//@   before for field in fields ## proof! { let _hint: Option<&FieldEntry> = transparent_field; lemma_mono_all(fields@); }
+//@   before for field in fields ## #[verus_spec(it => invariant it.seq().len() == fields@.len(), forall|i: int| 0 <= i < fields@.len() ==> *it.seq()[i] == fields@[i], 0 <= it.index@ <= fields@.len(), tr_mono(fields@), 0 <= n_transparent(fields@, it.index@) <= 1, it.index@ < fields@.len() ==> n_transparent(fields@, it.index@ + 1) == n_transparent(fields@, it.index@ as int) + (if transparent(&fields@[it.index@ as int]) { 1int } else { 0int }), transparent_field is None <==> n_transparent(fields@, it.index@) == 0, transparent_field matches Some(f) ==> 0 <= last_tr(fields@, it.index@) < it.index@ && *f == fields@[last_tr(fields@, it.index@)])]
+//@   before for field in fields@2 ## #[verus_spec(it => invariant it.seq().len() == fields@.len(), forall|i: int| 0 <= i < fields@.len() ==> *it.seq()[i] == fields@[i], 0 <= it.index@ <= fields@.len(), kind is Debug, wcb.gps == old(wcb).gps, forall|f: &FieldEntry| to_expr.requires((f,)), same(wcb, dbg_fields_phase(st(old(wcb), true), use_bounds, &old(wcb).gps, fields@, it.index@)))]
+//@ end
+verus! {
+pub open spec fn dbg_struct_expected(g: &Generics, h: &HelperAttributes, e: &DeriveEntry, fs: Seq<FieldEntry>) -> St {
+    let s1 = entry_phase(level_phase(start(g), h, DeriveItemKind::Debug), e);
+    dbg_expected(St { go: true, ..s1 }, s1.go, &gps_of(g), fs)
+}
+pub open spec fn dbg_variants_phase(s: St, go: bool, g: &GenericParamSet, vs: Seq<VariantEntry>, n: int) -> St decreases n {
+    if n <= 0 { s } else {
+        let p = dbg_variants_phase(s, go, g, vs, n - 1);
+        let s1 = level_phase(St { go, ..p }, &vs[n - 1].hattrs, DeriveItemKind::Debug);
+        dbg_expected(St { go: true, ..s1 }, s1.go, g, vs[n - 1].fields@)
+    }
+}
+pub open spec fn no_double_transparent(vs: Seq<VariantEntry>, n: int) -> bool {
+    forall|i: int| 0 <= i < n ==> n_transparent(#[trigger] vs[i].fields@, vs[i].fields@.len() as int) < 2
+}
+}
+//@ fn item_type.rs build_debug_for_struct
+//@   attr #[verus_verify]
+//@   spec r => ensures r is Err <==> n_transparent(fields@, fields@.len() as int) >= 2
+//@   before |field: &FieldEntry| ## #[verus_spec(r: TokenStream => requires true)]
+//@   before let wheres = wcb.build( ## proof! { assert(same(&wcb, dbg_struct_expected(&item.generics, hattrs, e, fields@))); }
+//@ end
+//@ fn item_type.rs build_debug_for_enum
+//@   attr #[verus_verify]
+//@   spec r => ensures r is Err <==> !no_double_transparent(variants@, variants@.len() as int)
+//@   before |field: &FieldEntry| ## #[verus_spec(r: TokenStream => requires true)]
+//@   before for variant in variants ## #[verus_spec(vi => invariant wcb.gps == gps_of(&item.generics), kind is Debug, use_bounds == entry_phase(level_phase(start(&item.generics), hattrs, kind), e).go, vi.seq().len() == variants@.len(), forall|i: int| 0 <= i < variants@.len() ==> *vi.seq()[i] == variants@[i], 0 <= vi.index@ <= variants@.len(), no_double_transparent(variants@, vi.index@), same(&wcb, dbg_variants_phase(entry_phase(level_phase(start(&item.generics), hattrs, kind), e), use_bounds, &gps_of(&item.generics), variants@, vi.index@)))]
+//@   before let wheres = wcb.build( ## proof! { assert(same(&wcb, dbg_variants_phase(entry_phase(level_phase(start(&item.generics), hattrs, DeriveItemKind::Debug), e), entry_phase(level_phase(start(&item.generics), hattrs, DeriveItemKind::Debug), e).go, &gps_of(&item.generics), variants@, variants@.len() as int))); }
+//@ end
+verus! {
+pub open spec fn has_value(h: &HelperAttributes) -> bool { h.default matches Some(a) && a.value is Some }
+// C03: a field with an explicit default value contributes no default field bound (its explicit bound(...) levels still apply)
+pub open spec fn def_fields_phase(s: St, go: bool, g: &GenericParamSet, fs: Seq<FieldEntry>, n: int) -> St decreases n {
+    if n <= 0 { s } else {
+        let p = def_fields_phase(s, go, g, fs, n - 1);
+        let s1 = level_phase(St { go, ..p }, &fs[n - 1].hattrs, DeriveItemKind::Default);
+        if has_value(&fs[n - 1].hattrs) { s1 } else { field_default(s1, g, &fs[n - 1].field.ty) }
+    }
+}
+}
+#[verus_verify]
+impl HelperAttributeForDefault {
+    // nested fn need_into matches on syn::Expr (external enum): only Some/None-ness is used here
+    #[verifier::external_body]
+    #[verus_spec(r => ensures r is Some <==> self.value is Some)]
+    fn value(&self, ty: &Type) -> Option<TokenStream> { unimplemented!() }
+}
+#[verus_verify]
+impl HelperAttributes {
+//@ fn item_type.rs HelperAttributes::default_value
+//@   spec r => ensures r is Some <==> has_value(self)
+//@ end
+}
+//@ fn item_type.rs build_default_ctor_args
+//@   attr #[verus_verify]
+//@   spec r => ensures r is Ok, same(final(wcb), def_fields_phase(st(old(wcb), true), use_bounds, &old(wcb).gps, fields@, fields@.len() as int)), final(wcb).gps == old(wcb).gps
+//@   before for field in fields ## #[verus_spec(it => invariant it.seq().len() == fields@.len(), forall|i: int| 0 <= i < fields@.len() ==> *it.seq()[i] == fields@[i], 0 <= it.index@ <= fields@.len(), kind is Default, wcb.gps == old(wcb).gps, same(wcb, def_fields_phase(st(old(wcb), true), use_bounds, &old(wcb).gps, fields@, it.index@)))]
 //@ end
 verus! {
 pub open spec fn use_bounds_outer(g: &Generics, e: &DeriveEntry) -> bool { entry_phase(start(g), e).go }
